@@ -201,7 +201,9 @@ func (p *dualPlugin) Server(b *plugin.MuxBroker) (interface{}, error) { return p
 func (p *dualPlugin) Client(b *plugin.MuxBroker, c *rpc.Client) (interface{}, error) {
 	return p.rpcClient(b, c)
 }
-func (p *dualPlugin) GRPCServer(b *plugin.GRPCBroker, s *grpc.Server) error { return p.grpcServer(b, s) }
+func (p *dualPlugin) GRPCServer(b *plugin.GRPCBroker, s *grpc.Server) error {
+	return p.grpcServer(b, s)
+}
 func (p *dualPlugin) GRPCClient(ctx context.Context, b *plugin.GRPCBroker, c *grpc.ClientConn) (interface{}, error) {
 	return p.grpcClient(ctx, b, c)
 }
